@@ -692,3 +692,62 @@ func VerifC06_UnchangedProviderStaysVisible() {
 	}
 	verif_Reach("history done")
 }
+
+// C06 (a provider first seen by a refresh that was cancelled part-way): the
+// cancelled refresh staged P without publishing it; the next refresh completes
+// without seeing P (its source is down, or P is briefly not reported); the
+// refresh after that sees P again — with the same or a newer record — and must
+// make it visible: "each provider reported by at least one responding source is
+// returned by lookups and listings", whatever earlier refreshes did.
+func VerifC06_StagedByCancelledRefreshThenSeenAgain() {
+	old := c06pids
+	c06pids = []peer.ID{"P"}
+	defer func() { c06pids = old }()
+	w := c06new()
+	if verif_Bool("cacheHoldsAnotherProviderFirst") {
+		w.srcs[1].content["Q"] = c06entry{present: true, ti: 1}
+		c06pids = []peer.ID{"P", "Q"}
+		verif_Assume(w.pc.Refresh(w.cx) == nil)
+	}
+	if verif_Bool("providerKnownBefore") {
+		// (then the cancelled refresh stages a NEWER record of a provider readers already see)
+		w.srcs[0].content["P"] = c06entry{present: true, ti: 0}
+		verif_Assume(w.pc.Refresh(w.cx) == nil)
+	}
+	// refresh 1: s1 reports the new provider P, then s2 finds the context cancelled
+	w.srcs[0].content["P"] = c06entry{present: true, ti: 1}
+	w.srcs[1].fail, w.srcs[1].cancel = true, true
+	w.cx.cancelled = false
+	verif_Assert(w.pc.Refresh(w.cx) != nil, "the cancelled refresh reports the cancellation")
+	w.srcs[1].fail, w.srcs[1].cancel = false, false
+	// refresh 2 completes without seeing P
+	if verif_Bool("sourceDownInSecondRefresh") {
+		w.srcs[0].fail = true
+	} else {
+		w.srcs[0].content["P"] = c06entry{}
+	}
+	w.cx.cancelled = false
+	verif_Assert(w.pc.Refresh(w.cx) == nil, "the second refresh completes")
+	if verif_Bool("clockAdvances") {
+		w.tick()
+	}
+	// refresh 3 sees P again
+	w.srcs[0].fail = false
+	ti := verif_Choose("timeWhenSeenAgain", 1, 2)
+	w.srcs[0].content["P"] = c06entry{present: true, ti: ti}
+	w.cx.cancelled = false
+	verif_Assert(w.pc.Refresh(w.cx) == nil, "the third refresh completes")
+	verif_Reach("third refresh")
+	listed := false
+	for _, pi := range w.pc.List() {
+		if pi.AddrInfo.ID == "P" {
+			listed = true
+			verif_Assert(c06timeIdx(pi.LastAdvertisementTime) == ti, "listed with the record reported")
+		}
+	}
+	verif_Assert(listed, "a provider reported by a responding source in a completed refresh is listed, whatever earlier refreshes did")
+	before := w.fetches()
+	got, err := w.pc.Get(context.Background(), "P")
+	verif_Assert(err == nil && got != nil && c06timeIdx(got.LastAdvertisementTime) == ti, "and returned by lookups")
+	verif_Assert(w.fetches() == before, "from the cache")
+}
